@@ -114,7 +114,7 @@ S(id="T.pair.native", props=["C13"], spec="native/pair_enum.c", mode="N", link=[
   what="whole-parse ownership: parse_free only gets blocks parse_alloc returned during this parse, at most once, never NULL; everything reachable from the root is live after the parse and after "
        "yaep_free_grammar; yaep_free_tree releases every block exactly once, termcb once per TERM node; no block of the parse stays unreleased")
 S(id="HT.hpn.native", props=["C19"], spec="native/ht_prime.c", mode="N", link=["hashtab.c", "allocate.c"], harness="main",
-  params={"quick": {"K": 20000}, "thorough": {"K": 2000000}}, bound="all requested sizes 0..K",
+  params={"quick": {"K": 20000}, "thorough": {"K": 200000}}, bound="all requested sizes 0..K (20 000, thorough 200 000)",
   functions=["higher_prime_number"], what="assumed clause of hpn_assumed_c: result is a prime in (n, 2n+3]")
 
 # ---------------- C15 / C14 / C17: yaep_parse ----------------
